@@ -272,8 +272,12 @@ class ResolverMixin:  # pylint: disable=too-few-public-methods
                 new_obj.propagated = True
                 assert obj.class_origin
                 new_obj.class_origin = obj.class_origin
-                for qualifier in new_obj.qualifiers.values():
-                    qualifier.propagated = True
+                for qname, qualifier in list(new_obj.qualifiers.items()):
+                    if qualifier.tosubclass is False:
+                        # Restricted flavor: not propagated to subclasses
+                        del new_obj.qualifiers[qname]
+                    else:
+                        qualifier.propagated = True
                 new_objects[obj_name] = new_obj
 
     def _set_new_object(self, new_obj, inherited_obj, new_class, superclass,
